@@ -76,6 +76,8 @@ def conc_cases(binp, seed, n):
                 k = rng.random()
                 if k < 0.40:
                     prog.append({"kind": "oneshot", "schema": rng.choice(sc)})
+                    if rng.random() < 0.08:
+                        prog[-1]["nil_schema"] = True       # AgainstSchema(nil, ...): accepted by the API, everything is valid
                 elif k < 0.58:
                     prog.append({"kind": "shared", "shared": rng.randrange(2), "value": rng.choice(sc)["data"]})
                 elif k < 0.68:
